@@ -10,7 +10,6 @@ use rustyline::highlight::Highlighter;
 use rustyline::validate::{ValidationContext, ValidationResult, Validator};
 use rustyline::{Editor, Result};
 use rustyline_derive::{Completer, Helper, Hinter};
-use std::borrow::Cow::Owned;
 use std::time::UNIX_EPOCH;
 
 #[derive(Completer, Helper, Hinter)]
@@ -34,11 +33,7 @@ impl Validator for InputValidator {
 
 impl Highlighter for InputValidator {
     fn highlight<'l>(&self, line: &'l str, pos: usize) -> std::borrow::Cow<'l, str> {
-        Owned(
-            self.highlighter
-                .highlight(line, pos)
-                .replace("[1;34m", "[4m"),
-        )
+        self.highlighter.highlight(line, pos)
     }
 
     fn highlight_char(&self, line: &str, pos: usize, _forced: bool) -> bool {
